@@ -28,7 +28,8 @@ CONSTANTS RotShapes,  \* set of <<H,W>>: arrays on which every region and corner
           CtorHi,
           HistShapes, \* set of <<H,W>>: frames on which layout histories are explored
           HistDepth,  \* number of Rotate / Extract steps after the layout has been built
-          HistAllSlots \* TRUE: the explored region is placed in each of the three layout slots in turn
+          HistAllSlots, \* TRUE: the explored region is placed in each of the three layout slots in turn
+          MaskShapes  \* set of <<H,W>>: frames on which every (non-empty) mask and corner is explored for masked arrays
 
 Absent   == << >>    \* "no region" (None in the code)
 Rejected == << >>    \* "the constructor raised"
@@ -62,6 +63,7 @@ Invalid1(p) == p[1] < 0 \/ p[2] < 0 \/ p[2] - p[1] <= 0
 Invalid2(r) == r[1] < 0 \/ r[2] < 0 \/ r[3] < 0 \/ r[4] < 0 \/ r[2] - r[1] <= 0 \/ r[4] - r[3] <= 0
 Inside(r, H, W) == Valid2(r) /\ r[2] <= H /\ r[4] <= W
 CellsOf(r) == (r[1] .. r[2]-1) \X (r[3] .. r[4]-1)
+Cells2(H, W) == (0 .. H-1) \X (0 .. W-1)
 \* the box spanned by a non-empty set of cells
 BoxOf(S) == LET ys == { p[1] : p \in S }
                 xs == { p[2] : p \in S }
@@ -148,6 +150,24 @@ SubCode1(mode, p, px) ==
                [] mode = "front_end" -> << p[1] + ((p[2] - p[1]) - px[1]), p[1] + (p[2] - p[1]) >>
     IN IF q[1] < 0 \/ q[2] < 0 \/ q[1] >= q[2] THEN Rejected ELSE q
 
+\* ---- rotation of MASKED arrays (Array2D.original_orientation, Layout2D.original_orientation_from) --------
+\* A masked array on an H x W frame is its set U of unmasked cells; its native content holds the tag of every
+\* unmasked cell and Zero at masked cells.  Rotating it moves every entry -- zeros included -- to the mirrored
+\* cell: the rotated array holds at a cell what the original held at the mirrored cell, and if the result carries
+\* a mask, it is the mirrored mask.  A 1D (slim) result lists the non-zero entries of that array in row-major order.
+\* Masks are exchanged as bitmaps (1 = unmasked) in row-major order.
+Zero == -1
+CellAt(k, W) == << k \div W, k % W >>
+UnmaskedOf(bm, W) == { CellAt(k - 1, W) : k \in { j \in 1 .. Len(bm) : bm[j] = 1 } }
+BitmapOf(U, H, W) == [k \in 1 .. H * W |-> IF CellAt(k - 1, W) \in U THEN 1 ELSE 0]
+MaskedIdent(H, W, U) == [i \in 1 .. H |-> [j \in 1 .. W |-> IF <<i-1, j-1>> \in U THEN (i-1) * W + (j-1) ELSE Zero]]
+RotMasked(c, H, W, U) == RotArray(c, MaskedIdent(H, W, U))
+RotUnmasked(c, H, W, U) == { RotCell(c, H, W, p) : p \in U }
+\* second formulation: rotate the full content, then apply the given mask (what an Array2D constructor does)
+ApplyMask(A, U) == [i \in 1 .. Rows(A) |-> [j \in 1 .. Cols(A) |-> IF <<i-1, j-1>> \in U THEN A[i][j] ELSE Zero]]
+Flatten(A) == [k \in 1 .. Rows(A) * Cols(A) |-> A[((k-1) \div Cols(A)) + 1][((k-1) % Cols(A)) + 1]]
+SlimOf(A) == SelectSeq(Flatten(A), LAMBDA v : v # Zero)
+
 \* ---- layout histories ---------------------------------------------------------------------------
 \* A Layout2D carries three region slots (parallel_overscan, serial_prescan, serial_overscan; Absent = None) that
 \* describe an array.  A layout state is the frame shape sh of the array it describes, the read-out corner c of
@@ -225,6 +245,9 @@ Init ==
           /\ \E p \in CtorVals \X CtorVals : inp = [Blank EXCEPT !.r = p]
        \/ /\ kind = "ctor2"
           /\ \E r \in CtorVals \X CtorVals \X CtorVals \X CtorVals : inp = [Blank EXCEPT !.r = r]
+       \/ /\ kind = "moo"
+          /\ \E sh \in MaskShapes, c \in Corners : \E S \in (SUBSET (1 .. sh[1] * sh[2])) \ {{}} :
+                inp = [Blank EXCEPT !.sh = sh, !.c = c, !.r = [k \in 1 .. sh[1] * sh[2] |-> IF k \in S THEN 1 ELSE 0]]
        \/ /\ kind = "hist"
           /\ \E sh \in HistShapes : \E r \in Regions2(sh[1], sh[2]) : \E k \in SlotsOf(sh, r) :
                 inp = [Blank EXCEPT !.sh = sh, !.r = Triple(sh, r, k)]
@@ -253,6 +276,12 @@ SubRegion2 == Ready("sub2") /\ obs' = [out |-> Sub2(inp.m, inp.r, inp.px)] /\ Do
 \* Region1D(...) / Region2D(...)
 Construct1 == Ready("ctor1") /\ obs' = [rejected |-> Invalid1(inp.r)] /\ Done
 Construct2 == Ready("ctor2") /\ obs' = [rejected |-> Invalid2(inp.r)] /\ Done
+\* Array2D(values, mask, header).original_orientation / Layout2D.original_orientation_from(masked Array2D)
+RotateMasked == /\ Ready("moo")
+                /\ obs' = LET U == UnmaskedOf(inp.r, inp.sh[2])
+                          IN [out |-> RotMasked(inp.c, inp.sh[1], inp.sh[2], U),
+                              umask |-> BitmapOf(RotUnmasked(inp.c, inp.sh[1], inp.sh[2], U), inp.sh[1], inp.sh[2])]
+                /\ Done
 
 \* ---- layout histories: Build / BuildRotated(c), then up to HistDepth steps Rotate(c) / Extract(e) ----
 HistDump == PrintT(ToJson([k |-> "inst", kind |-> "hist", sh |-> inp.sh, regs |-> inp.r, steps |-> hist']))
@@ -278,7 +307,7 @@ RotateLayout(c) == Live /\ Advance([op |-> "rot", c |-> c, e |-> << >>])
 CurWindows == IF kind = "hist" /\ Len(lay) >= 1 THEN HistWindows(lay[Len(lay)].sh[1], lay[Len(lay)].sh[2]) ELSE {}
 ExtractLayout == Live /\ \E e \in CurWindows : Advance([op |-> "ext", c |-> <<1, 0>>, e |-> e])
 
-Next == \/ Rotate \/ Extract1 \/ Extract2 \/ SubRegion1 \/ SubRegion2 \/ Construct1 \/ Construct2
+Next == \/ Rotate \/ Extract1 \/ Extract2 \/ SubRegion1 \/ SubRegion2 \/ Construct1 \/ Construct2 \/ RotateMasked
         \/ BuildLayout
         \/ \E c \in Corners : BuildRotatedLayout(c)
         \/ \E c \in Corners : RotateLayout(c)
@@ -362,6 +391,35 @@ CtorMeaning ==
     /\ Seen("ctor1") => (obs.rejected <=> ~ Valid1(inp.r))
     /\ Seen("ctor2") => (obs.rejected <=> ~ Valid2(inp.r))
     /\ Seen("ctor2") /\ ~ obs.rejected => CellsOf(inp.r) # {}
+
+\* ---- masked arrays ----
+\* the rotated masked array is the rotated full content under the rotated mask; its non-zero cells are exactly the
+\* rotated unmasked cells; a slim reading has one entry per unmasked cell
+MaskedRotForms ==
+    Seen("moo") =>
+        LET H == inp.sh[1]
+            W == inp.sh[2]
+            U == UnmaskedOf(inp.r, W)
+            RU == RotUnmasked(inp.c, H, W, U)
+        IN /\ obs.out = ApplyMask(RotArray(inp.c, Ident(H, W)), RU)
+           /\ { p \in Cells2(H, W) : obs.out[p[1]+1][p[2]+1] # Zero } = RU
+           /\ obs.umask = BitmapOf(RU, H, W)
+           /\ Len(SlimOf(obs.out)) = Cardinality(U)
+\* the same rotation twice restores the masked array and its mask
+MaskedRotInvolution ==
+    Seen("moo") =>
+        LET H == inp.sh[1]
+            W == inp.sh[2]
+            U == UnmaskedOf(inp.r, W)
+        IN /\ RotArray(inp.c, obs.out) = MaskedIdent(H, W, U)
+           /\ RotUnmasked(inp.c, H, W, RotUnmasked(inp.c, H, W, U)) = U
+\* wrapping the rotated content with the UN-rotated mask is right exactly for masks symmetric under the flips
+StaleMaskTheorem ==
+    Seen("moo") =>
+        LET H == inp.sh[1]
+            W == inp.sh[2]
+            U == UnmaskedOf(inp.r, W)
+        IN (ApplyMask(obs.out, U) = obs.out) <=> (RotUnmasked(inp.c, H, W, U) = U)
 
 \* ---- layout histories ----
 InHist == kind = "hist" /\ Len(hist) >= 1
